@@ -710,7 +710,16 @@ class PureScheduler:                                    # pylint: disable=r0902
             # wait for the forever tasks for a clean exit
             # don't bother to set a timeout, as this is expected
             # to be immediate since all tasks are canceled
-            await asyncio.wait(pending)
+            # if we get cancelled ourselves in the meanwhile (nested
+            # scheduler), still wait for our tasks, and propagate afterwards
+            cancelled = None
+            while pending:
+                try:
+                    _, pending = await asyncio.wait(pending)
+                except asyncio.CancelledError as exc:
+                    cancelled = exc
+            if cancelled:
+                raise cancelled
 
     async def _tidy_tasks_exception(self, tasks):
         """
@@ -881,7 +890,13 @@ class PureScheduler:                                    # pylint: disable=r0902
         await self._feedback(None, "scheduler is shutting down...")
 
         # the done part is of no use here
-        _, pending = await asyncio.wait(tasks, timeout=timeout)
+        try:
+            _, pending = await asyncio.wait(tasks, timeout=timeout)
+        except asyncio.CancelledError:
+            # we are being cancelled (nested scheduler):
+            # do not leave our jobs' co_shutdown() running behind us
+            await self._tidy_tasks(tasks)
+            raise
         # everything went fine
         # NOTE however: here we say that sub-schedulers that expired in timeout
         # should not impact the overall result; this is an arguable choice
@@ -988,10 +1003,16 @@ class PureScheduler:                                    # pylint: disable=r0902
                    for job in entry_jobs]
 
         while True:
-            done, pending \
-                = await asyncio.wait(pending,
-                                     timeout=self._remaining_timeout(),
-                                     return_when=asyncio.FIRST_COMPLETED)
+            try:
+                done, pending \
+                    = await asyncio.wait(pending,
+                                         timeout=self._remaining_timeout(),
+                                         return_when=asyncio.FIRST_COMPLETED)
+            except asyncio.CancelledError:
+                # a nested scheduler gets cancelled by its parent:
+                # pass it on to our own jobs, and wait for them
+                await self._tidy_tasks(pending)
+                raise
 
             done_ok = {t for t in done if not t._exception}
             await self._feedback(done_ok, "DONE")
